@@ -443,8 +443,8 @@ impl Prop for C01 {
     }
     fn runs(&self, tier: Tier) -> u64 {
         match (tier, cfg!(debug_assertions)) {
-            (Tier::Quick, true) => 400_000,
-            (Tier::Quick, false) => 400_000,
+            (Tier::Quick, true) => 1_500_000,
+            (Tier::Quick, false) => 1_500_000,
             (Tier::Thorough, true) => 60_000_000,
             (Tier::Thorough, false) => 60_000_000,
         }
@@ -557,8 +557,8 @@ impl Prop for C04 {
     }
     fn runs(&self, tier: Tier) -> u64 {
         match (tier, cfg!(debug_assertions)) {
-            (Tier::Quick, true) => 12_000,
-            (Tier::Quick, false) => 12_000,
+            (Tier::Quick, true) => 16_000,
+            (Tier::Quick, false) => 16_000,
             (Tier::Thorough, true) => 2_000_000,
             (Tier::Thorough, false) => 2_000_000,
         }
